@@ -474,7 +474,7 @@ impl BinaryClassification<&[bool]> for &[Pr] {
         let mut s0: Option<f32> = None;
 
         for (s, t) in tuples {
-            if s0.map_or(true, |s0| (*s - s0).abs() > 1e-10) {
+            if s0.map_or(true, |s0| *s != s0) {
                 tps_fps.push((tp, fp));
                 thresholds.push(s);
                 s0 = Some(*s);
